@@ -25,11 +25,11 @@ CREATE = {1: create_acceptance_success_tm, 2: create_acceptance_failure_tm, 3: c
           5: create_step_success_tm, 6: create_step_failure_tm, 7: create_completion_success_tm, 8: create_completion_failure_tm}
 
 
-def mk_tc(apid=0x22, sc=7, version=0, svc=17, sub=1):
+def mk_tc(apid=0x22, sc=7, version=0, svc=17, sub=1, ack=0b1111):
     from spacepackets.ccsds.spacepacket import SpacePacketHeader, PacketType
     hdr = SpacePacketHeader(packet_type=PacketType.TC, apid=apid, seq_count=sc, data_len=0, sec_header_flag=True,
                             ccsds_version=version)
-    return PusTc.from_sp_header(hdr, svc, sub)
+    return PusTc.from_sp_header(hdr, svc, sub, ack_flags=ack)
 
 
 def mk_report(ctx, sub, tc, name="step"):
@@ -67,7 +67,8 @@ def as_flag(x):
 
 
 def h_step(ctx, sub, nlist, twin=False):
-    tc = mk_tc()
+    # service, subservice and acknowledgement flags of the telecommand are no part of its request id: any values
+    tc = mk_tc(svc=ctx.int("tc_service", 0, 255), sub=ctx.int("tc_subservice", 0, 255), ack=ctx.int("tc_ack_flags", 0, 15))
     v = PusVerificator()
     ctx.holds("new telecommand accepted", v.add_tc(tc) == True)  # noqa: E712
     rid = RequestId.from_pus_tc(tc)
